@@ -5,7 +5,7 @@ ID = 'C01'
 LEAN_MODULES = ['C01', 'C01b']
 RULE = ('one case = 2-4 REAL nodes (KeyspaceGroup + MemStore + Clock + datacake_rpc Server with the real ConsistencyService and ReplicationService on loopback; no chitchat), 3-25 events: client put/del/put_many/del_many '
         'applied locally exactly as ReplicatedStoreHandle does (stamps from the real clocks are fed to the model), their replication messages delivered / dropped / duplicated / reordered / batched through the real RPC clients, '
-        'purges, late deliveries; then - after the last operation - every ordered pair (j,i) completes one anti-entropy exchange (real poll_keyspace -> get_state -> Diff -> handle_removals / handle_modified with fetch_docs) '
+        'purges, late deliveries, anti-entropy exchanges in the middle of the history (so that later polls meet trackers); then - after the last operation - every ordered pair (j,i) completes one anti-entropy exchange (real poll_keyspace -> get_state -> Diff -> handle_removals / handle_modified with fetch_docs) '
         'in a random order of pairs, with the two halves in either order or concurrent (production path), interleaved with further late deliveries. After every event each touched node is read (set, metadata, documents) and '
         'compared with the Lean cluster model; at the end every node must return exactly the LWW documents of all issued operations (Lean oracle `lww`). quick: 150 schedules + all exchange orders for 3 nodes on 6 base '
         'histories; non-trivial = at least one message lost or reordered and at least one conflict on an id; distinct by hash')
@@ -66,6 +66,11 @@ def gen_case(rng, idx, fixed_pairs=None):
                 pick = sorted(set(rng.choice(own) for _ in range(rng.range(1, 3))))
                 lines.append('batch %d %d %s' % (frm, to, ','.join(map(str, pick))))
         if rng.chance(1, 8): lines.append('purge %d' % rng.below(n))
+        if rng.chance(1, 4):
+            # anti-entropy also runs while clients are still writing: the trackers it leaves behind decide what later polls skip
+            j = rng.below(n); i2 = (j + 1 + rng.below(n - 1)) % n
+            m = rng.below(3)
+            lines.append('repair %d %d %d' % (j, i2, m) if m < 2 else 'repairc %d %d' % (j, i2))
         if rng.chance(1, 4): lines.append('read %d' % rng.below(n))
     # quiescence: every ordered pair completes an exchange, late deliveries in between
     pairs = fixed_pairs if fixed_pairs is not None else rng.shuffle([(j, i) for j in range(n) for i in range(n) if i != j])
@@ -76,6 +81,29 @@ def gen_case(rng, idx, fixed_pairs=None):
         m = rng.below(3)
         lines.append('repair %d %d %d' % (j, i, m) if m < 2 else 'repairc %d %d' % (j, i))
         lines.append('read %d' % j)
+    for j in range(n):
+        lines.append('converged %d' % j)
+    lines.append('end')
+    return lines
+
+
+def gen_tracker(rng, idx):
+    """a peer that has already synchronised meets a later change which must move the keyspace's change stamp: a delete of
+    a document the deleting node does not hold, a put, a bulk operation - none of them delivered directly"""
+    n = rng.range(2, 3)
+    a = rng.below(n); b = (a + 1 + rng.below(n - 1)) % n
+    lines = ['case %d cluster' % idx, 'nodes %d' % n]
+    lines.append('put %d 7 %02x' % (b, rng.below(256)))
+    if rng.chance(1, 2): lines.append('put %d 1 %02x' % (a, rng.below(256)))
+    lines.append('repair %d %d %d' % (b, a, rng.below(2)))          # b's tracker for a is now up to date
+    k = rng.below(4)
+    if k == 0: lines.append('del %d 7' % a)                           # a does not hold 7
+    elif k == 1: lines.append('mdel %d 7' % a)
+    elif k == 2: lines.append('put %d 7 %02x' % (a, rng.below(256)))
+    else: lines.append('del %d 1' % a)
+    pairs = rng.shuffle([(j, i) for j in range(n) for i in range(n) if i != j])
+    for (j, i) in pairs:
+        lines.append('repair %d %d %d' % (j, i, rng.below(2)))
     for j in range(n):
         lines.append('converged %d' % j)
     lines.append('end')
@@ -98,6 +126,7 @@ def generate(rng, tier):
     n = dict(quick=150, thorough=6000, search=1500)[tier]
     cases = [gen_case(rng.fork(), i) for i in range(n)]
     cases += [gen_race(rng.fork(), 100000 + i) for i in range(dict(quick=8, thorough=100, search=16)[tier])]
+    cases += [gen_tracker(rng.fork(), 200000 + i) for i in range(dict(quick=12, thorough=300, search=30)[tier])]
     # all orders of the 6 exchanges of a 3-node cluster, on a few base histories
     idx = n
     allpairs = [(j, i) for j in range(3) for i in range(3) if i != j]
